@@ -53,6 +53,7 @@ type child struct {
 	nshards  int
 	stripe   int
 	nstripes int
+	prepN    int
 	fakeSpin int
 	fakeDie  int
 }
@@ -201,6 +202,13 @@ func (c *child) setInflight(idx int, desc string, data []byte) {
 		go func() { m[1] = 1 }() // unrecoverable: panic in another goroutine
 		select {}
 	}
+}
+
+// prepTick records progress while a case list is being prepared (negative,
+// changing indices, so the parent's progress watchdog sees the child alive).
+func (c *child) prepTick(desc string) {
+	c.prepN--
+	c.setInflight(c.prepN, "preparing: "+desc, nil)
 }
 
 func (c *child) count(name string, n int) { c.res.Counters[name] += int64(n) }
